@@ -192,6 +192,7 @@ def main(argv):
     seed = int(os.environ.get("VERIF_SEED", "0"))
     repo = repo_path()
     t0 = time.time()
+    os.environ["VERIF_TIER"] = tier  # contract modules widen bounds / configurations in the thorough tier
     ev_path = os.path.join(VERIF, "evidence", f"{prop}.json")
     os.makedirs(os.path.dirname(ev_path), exist_ok=True)
     if os.path.exists(ev_path):
